@@ -250,6 +250,7 @@ func c18Package(c *Ctx, key string, srcs map[string][]byte, out *ndjson) {
 	fset := token.NewFileSet()
 	afiles := map[string]*ast.File{}
 	dfiles := map[string]*dst.File{}
+	unresolved := map[string][]*ast.Ident{}
 	d := decorator.NewDecorator(fset)
 	for name, src := range srcs {
 		af, err := parser.ParseFile(fset, name, src, parser.ParseComments)
@@ -261,29 +262,52 @@ func c18Package(c *Ctx, key string, srcs map[string][]byte, out *ndjson) {
 			return
 		}
 		// the corresponding unresolved-identifier list
-		for _, u := range af.Unresolved {
-			if du, ok := d.Dst.Nodes[u].(*dst.Ident); ok {
-				df.Unresolved = append(df.Unresolved, du)
-			}
-		}
+		unresolved[name] = append([]*ast.Ident{}, af.Unresolved...)
 		afiles[name], dfiles[name] = af, df
 	}
-	var ap *ast.Package
-	var dp *dst.Package
-	var aerr, derr error
-	ap, aerr = ast.NewPackage(fset, afiles, nil, nil)
-	if msg := guard(func() { dp, derr = dst.NewPackage(fset, dfiles, nil, nil) }); msg != "" {
-		c.Fail(Finding{Sig: "newpackage-panics", Input: key, What: msg, Replay: obj{"kind": "c18pkg", "key": key}})
-		return
+	// both builders iterate over a map of files, so which file "wins" a conflict is not determined:
+	// the sets of possible outcomes (package scope + reports) over repeated runs are compared
+	outcomesA, outcomesB := map[string]bool{}, map[string]bool{}
+	var aerr error
+	for rep := 0; rep < 40; rep++ {
+		// fresh unresolved lists each time (NewPackage rewrites them)
+		for name, af := range afiles {
+			dfiles[name].Unresolved = nil
+			for _, u := range unresolved[name] {
+				if du, ok := d.Dst.Nodes[u].(*dst.Ident); ok {
+					dfiles[name].Unresolved = append(dfiles[name].Unresolved, du)
+				}
+			}
+			af.Unresolved = append([]*ast.Ident{}, unresolved[name]...)
+		}
+		ap, err := ast.NewPackage(fset, afiles, nil, nil)
+		aerr = err
+		sa := []string{}
+		if ap != nil {
+			sa = scopeNames(reflect.ValueOf(ap.Scope))
+		}
+		outcomesA[strings.Join(sa, ",")+" | "+strings.Join(normErrs(err), "; ")] = true
+		var dp *dst.Package
+		var derr error
+		if msg := guard(func() { dp, derr = dst.NewPackage(fset, dfiles, nil, nil) }); msg != "" {
+			c.Fail(Finding{Sig: "newpackage-panics", Input: key, What: msg, Replay: obj{"kind": "c18pkg", "key": key}})
+			return
+		}
+		sb := []string{}
+		if dp != nil {
+			sb = scopeNames(reflect.ValueOf(dp.Scope))
+		}
+		outcomesB[strings.Join(sb, ",")+" | "+strings.Join(normErrs(derr), "; ")] = true
 	}
-	sa, sb := []string{}, []string{}
-	if ap != nil {
-		sa = scopeNames(reflect.ValueOf(ap.Scope))
+	keysOf := func(m map[string]bool) []string {
+		out := []string{}
+		for k := range m {
+			out = append(out, k)
+		}
+		sort.Strings(out)
+		return out
 	}
-	if dp != nil {
-		sb = scopeNames(reflect.ValueOf(dp.Scope))
-	}
-	out.Add(obj{"side": "package", "scopeA": sa, "scopeB": sb, "errsA": normErrs(aerr), "errsB": normErrs(derr), "key": key})
+	out.Add(obj{"side": "package", "scopeA": keysOf(outcomesA), "scopeB": keysOf(outcomesB), "errsA": []string{}, "errsB": []string{}, "key": key})
 	c.Eval("package|"+key, aerr != nil)
 }
 
